@@ -67,7 +67,13 @@ use barter_data::{
     },
     transformer::ExchangeTransformer,
 };
-use barter_data::{process_buffered_events, streams::builder::dynamic::indexed::index_market_data_subscription_batches};
+use barter_data::{
+    process_buffered_events,
+    streams::builder::dynamic::{
+        indexed::{generate_indexed_market_data_subscription_batches, index_market_data_subscription_batches},
+        validate_batches,
+    },
+};
 use barter_instrument::{
     Keyed, Side, Underlying,
     asset::Asset,
@@ -298,19 +304,24 @@ trait Flavour: InstrumentData<Key: KeyNum> + 'static {
     const NAME: &'static str;
     /// the instruments to subscribe, one per slot (market, key) in that order (a market repeated in
     /// two consecutive slots is subscribed twice)
-    fn instruments(route: &Route, uni: &[MarketDataInstrument], names: &[String], slots: &[(usize, u32)], off: i64) -> Result<Vec<Self>, String>;
+    fn instruments(route: &Route, uni: &[MarketDataInstrument], names: &[String], slots: &[(usize, u32)], off: i64, judge: bool) -> Result<Vec<Self>, String>;
+    /// flavours whose keys are positions in a collection translate them to the spec's keys with
+    /// the table built by the last `instruments` call (`None`: the key is the spec's key)
+    fn keymap() -> Option<HashMap<i64, i64>> {
+        None
+    }
 }
 impl Flavour for Keyed<u32, MarketDataInstrument> {
     const NAME: &'static str = "keyed";
-    fn instruments(_: &Route, uni: &[MarketDataInstrument], _: &[String], slots: &[(usize, u32)], off: i64) -> Result<Vec<Self>, String> {
-        let _ = off;
+    fn instruments(_: &Route, uni: &[MarketDataInstrument], _: &[String], slots: &[(usize, u32)], off: i64, judge: bool) -> Result<Vec<Self>, String> {
+        let _ = (off, judge);
         Ok(slots.iter().map(|(m, key)| Keyed::new(*key, uni[*m - 1].clone())).collect())
     }
 }
 impl Flavour for MarketInstrumentData<u32> {
     const NAME: &'static str = "named";
-    fn instruments(_: &Route, uni: &[MarketDataInstrument], names: &[String], slots: &[(usize, u32)], off: i64) -> Result<Vec<Self>, String> {
-        let _ = off;
+    fn instruments(_: &Route, uni: &[MarketDataInstrument], names: &[String], slots: &[(usize, u32)], off: i64, judge: bool) -> Result<Vec<Self>, String> {
+        let _ = (off, judge);
         Ok(slots
             .iter()
             .map(|(m, key)| MarketInstrumentData { key: *key, name_exchange: InstrumentNameExchange::new(names[*m - 1].as_str()), kind: uni[*m - 1].kind.clone() })
@@ -325,7 +336,8 @@ impl Flavour for MarketInstrumentData<u32> {
 /// the indexer: a market repeated in two slots gets the same index twice).
 impl Flavour for Keyed<InstrumentIndex, MarketDataInstrument> {
     const NAME: &'static str = "indexed";
-    fn instruments(route: &Route, uni: &[MarketDataInstrument], names: &[String], slots: &[(usize, u32)], off: i64) -> Result<Vec<Self>, String> {
+    fn instruments(route: &Route, uni: &[MarketDataInstrument], names: &[String], slots: &[(usize, u32)], off: i64, judge: bool) -> Result<Vec<Self>, String> {
+        let _ = judge;
         let ex = exchange_id(route.ex);
         let mut builder = IndexedInstruments::builder();
         for (j, mdi) in uni.iter().enumerate() {
@@ -358,6 +370,143 @@ impl Flavour for Keyed<InstrumentIndex, MarketDataInstrument> {
             slots.iter().map(|(m, _)| Subscription::new(ex, uni[*m - 1].clone(), route.sub_kind())).collect();
         let out = index_market_data_subscription_batches(&indexed, [batch]).map_err(|e| format!("indexing the subscriptions failed: {e}"))?;
         Ok(out.into_iter().flatten().map(|sub| sub.instrument).collect())
+    }
+}
+
+thread_local! {
+    /// InstrumentIndex (as KeyNum::num) -> spec key, of the collection the `generated` flavour built last
+    static GENERATED_KEYS: std::cell::RefCell<HashMap<i64, i64>> = std::cell::RefCell::new(HashMap::new());
+}
+
+/// The GENERATED flavour - `init_indexed_multi_exchange_market_stream`'s way to subscriptions:
+/// an `IndexedInstruments` collection over several exchanges (inserted in a shuffled order; the
+/// route's exchange holds the subscribed instruments, other exchanges hold decoys - one of them
+/// with the venue symbol of the route's first market), then the real
+/// `generate_indexed_market_data_subscription_batches(&collection, &sub_kinds)` and the real
+/// `validate_batches`; the batch of the route's exchange, restricted to the route's kind (the
+/// chunking `DynamicStreams::init` does), is what the mapper gets.
+/// Judged here: one batch per exchange, holding exactly that exchange's instruments x the requested
+/// kinds, each keyed by the instrument's index in the collection and named by its exchange name;
+/// exact duplicates (a kind requested twice) removed, every distinct subscription kept.
+/// Judged by the spec: a message of a market carries the index of exactly that instrument (the
+/// index is translated to the spec's key through the collection: instrument at that position).
+impl Flavour for MarketInstrumentData<InstrumentIndex> {
+    const NAME: &'static str = "generated";
+    fn keymap() -> Option<HashMap<i64, i64>> {
+        Some(GENERATED_KEYS.with(|k| k.borrow().clone()))
+    }
+    fn instruments(route: &Route, uni: &[MarketDataInstrument], names: &[String], slots: &[(usize, u32)], off: i64, judge: bool) -> Result<Vec<Self>, String> {
+        let ex = exchange_id(route.ex);
+        let kind_of = |mdi: &MarketDataInstrument| {
+            let settle = || Asset::from(mdi.quote.name().as_str());
+            match &mdi.kind {
+                MarketDataInstrumentKind::Spot => InstrumentKind::Spot,
+                MarketDataInstrumentKind::Perpetual => InstrumentKind::Perpetual(PerpetualContract { contract_size: Decimal::ONE, settlement_asset: settle() }),
+                MarketDataInstrumentKind::Future(c) => InstrumentKind::Future(FutureContract { contract_size: Decimal::ONE, settlement_asset: settle(), expiry: c.expiry }),
+                MarketDataInstrumentKind::Option(c) => InstrumentKind::Option(OptionContract {
+                    contract_size: Decimal::ONE,
+                    settlement_asset: settle(),
+                    kind: c.kind,
+                    exercise: c.exercise,
+                    expiry: c.expiry,
+                    strike: c.strike,
+                }),
+            }
+        };
+        // requested kinds: the route's kind alone, with the other of trades / L1 after or before it;
+        // a market subscribed twice as the same instrument = the kind requested twice
+        let k = route.sub_kind();
+        let ikind = uni[0].kind.clone();
+        let k2 = [SubKind::PublicTrades, SubKind::OrderBooksL1].into_iter().find(|x| *x != k && exchange_supports_instrument_kind_sub_kind(&ex, &ikind, *x));
+        let distinct: std::collections::BTreeSet<usize> = slots.iter().map(|(m, _)| *m).collect();
+        let mut kinds = match ((off as usize + distinct.len()) % 3, k2) {
+            (1, Some(k2)) => vec![k, k2],
+            (2, Some(k2)) => vec![k2, k],
+            _ => vec![k],
+        };
+        if slots.windows(2).any(|w| w[0] == w[1]) {
+            kinds.push(k);
+        }
+        // the instruments: one per slot key (a second instrument under a market has its own internal
+        // name and the same exchange name), plus decoys on the exchanges that support the kinds
+        let mut all: Vec<Instrument<ExchangeId, Asset>> = vec![];
+        let mut seen = std::collections::BTreeSet::new();
+        for (m, key) in slots {
+            if seen.insert(*key) {
+                let mdi = &uni[*m - 1];
+                all.push(Instrument::new(ex, format!("i{key}"), names[*m - 1].as_str(), Underlying::new(mdi.base.name().as_str(), mdi.quote.name().as_str()),
+                                         InstrumentQuoteAsset::UnderlyingQuote, kind_of(mdi), None));
+            }
+        }
+        let decoys = [(ExchangeId::BinanceFuturesUsd, MarketDataInstrumentKind::Perpetual), (ExchangeId::BinanceSpot, MarketDataInstrumentKind::Spot),
+                      (ExchangeId::Kraken, MarketDataInstrumentKind::Spot), (ExchangeId::Okx, MarketDataInstrumentKind::Perpetual)];
+        for (dex, dkind) in decoys {
+            if dex == ex || !kinds.iter().all(|x| exchange_supports_instrument_kind_sub_kind(&dex, &dkind, *x)) {
+                continue;
+            }
+            for (j, (b, q)) in [("btc", "usdt"), ("sol", "usdc")].into_iter().enumerate() {
+                let mdi = MarketDataInstrument::new(b, q, dkind.clone());
+                let name = if j == 0 && !names[0].is_empty() { names[0].clone() } else { format!("DECOY{j}-{}", dex.as_str()) };
+                all.push(Instrument::new(dex, format!("x{j}"), name.as_str(), Underlying::new(b, q), InstrumentQuoteAsset::UnderlyingQuote, kind_of(&mdi), None));
+            }
+        }
+        // shuffled insertion order (deterministic in the subscription)
+        let mut seed = (off as u64 + 1) * 2654435761 + slots.len() as u64 * 40503 + distinct.iter().sum::<usize>() as u64;
+        for i in (1..all.len()).rev() {
+            seed = seed.wrapping_mul(6364136223846793005).wrapping_add(1442695040888963407);
+            all.swap(i, (seed >> 33) as usize % (i + 1));
+        }
+        let mut builder = IndexedInstruments::builder();
+        for inst in all {
+            builder = builder.add_instrument(inst);
+        }
+        let collection = builder.build();
+
+        // the real generator and the real validation of the dynamic builder
+        let generated = generate_indexed_market_data_subscription_batches(&collection, &kinds);
+        let batches = validate_batches(generated).map_err(|e| format!("validate_batches rejected the generated batches: {e}"))?;
+
+        // expected, from the collection alone
+        let mut want: std::collections::BTreeMap<ExchangeId, Vec<(usize, String, String, SubKind)>> = Default::default();
+        let mut kinds_set = kinds.clone();
+        kinds_set.sort();
+        kinds_set.dedup();
+        let mut table = HashMap::new();
+        for inst in collection.instruments() {
+            let e = inst.value.exchange.value;
+            let name_internal = inst.value.name_internal.name().to_string();
+            let spec_key = if e == ex && name_internal.starts_with('i') { name_internal[1..].parse::<i64>().unwrap_or(-1) } else { 100 + inst.key.0 as i64 };
+            table.insert(inst.key.num(), spec_key);
+            for sk in &kinds_set {
+                want.entry(e).or_default().push((inst.key.0, inst.value.name_exchange.name().to_string(), MarketDataInstrumentKind::from(&inst.value.kind).to_string(), *sk));
+            }
+        }
+        GENERATED_KEYS.with(|k| *k.borrow_mut() = table);
+        let mut got: std::collections::BTreeMap<ExchangeId, Vec<(usize, String, String, SubKind)>> = Default::default();
+        let mut batch_exchanges = vec![];
+        for batch in &batches {
+            let exs: std::collections::BTreeSet<ExchangeId> = batch.iter().map(|s| s.exchange).collect();
+            if judge && exs.len() != 1 {
+                return Err(format!("generated batches differ from the collection: a batch mixes the exchanges {exs:?}"));
+            }
+            batch_exchanges.extend(exs);
+            for sub in batch {
+                got.entry(sub.exchange).or_default().push((sub.instrument.key.0, sub.instrument.name_exchange.name().to_string(), sub.instrument.kind.to_string(), sub.kind));
+            }
+        }
+        let n = batch_exchanges.len();
+        batch_exchanges.sort();
+        batch_exchanges.dedup();
+        if judge && batch_exchanges.len() != n {
+            return Err("generated batches differ from the collection: an exchange has more than one batch".to_string());
+        }
+        want.values_mut().for_each(|v| v.sort());
+        got.values_mut().for_each(|v| v.sort());
+        if judge && want != got {
+            return Err(format!("generated batches differ from the collection (exchange -> [(index, exchange name, kind, sub kind)]): generated+validated {got:?}, the collection holds {want:?}"));
+        }
+        // the (exchange, kind) chunk DynamicStreams::init hands to the route's connector
+        Ok(batches.into_iter().flatten().filter(|s| s.exchange == ex && s.kind == k).map(|s| s.instrument).collect())
     }
 }
 
@@ -825,6 +974,8 @@ struct Session<T> {
     map_ids: Vec<String>,
     /// the requests named other markets than the venue's symbols of the subscribed instruments
     request_mismatch: Option<Value>,
+    /// translation of collection positions to the spec's keys (`generated` flavour)
+    keymap: Option<HashMap<i64, i64>>,
 }
 
 fn key_of(m: usize, off: i64) -> u32 {
@@ -845,14 +996,14 @@ fn slots_of(markets: &[usize], off: i64, d: usize, dk: i64) -> Vec<(usize, u32)>
     v
 }
 
-fn make_subs<E, I, K>(route: &Route, kind: &K, uni: &[MarketDataInstrument], names: &[String], slots: &[(usize, u32)], off: i64) -> Result<Vec<Subscription<E, I, K>>, String>
+fn make_subs<E, I, K>(route: &Route, kind: &K, uni: &[MarketDataInstrument], names: &[String], slots: &[(usize, u32)], off: i64, judge: bool) -> Result<Vec<Subscription<E, I, K>>, String>
 where
     E: Connector,
     I: Flavour,
     K: SubscriptionKind,
 {
-    let instruments = I::instruments(route, uni, names, slots, off)?;
-    if instruments.len() != slots.len() {
+    let instruments = I::instruments(route, uni, names, slots, off, judge)?;
+    if I::NAME != "generated" && instruments.len() != slots.len() {
         return Err(format!("{} instruments for {} subscriptions", instruments.len(), slots.len()));
     }
     // the conversion DynamicStreams::init performs for the (ExchangeId, SubKind) arm
@@ -870,7 +1021,9 @@ where
 {
     (1..=NMARKETS)
         .map(|m| {
-            let subs = make_subs::<E, I, K>(route, kind, uni, names, &slots_of(&[m], 0, 0, 0), 0)?;
+            // (off = 2: the `generated` flavour then requests the route's kind alone; what the generator
+            //  makes of its collection is judged at Subscribe, not while the venue's listing is read)
+            let subs = make_subs::<E, I, K>(route, kind, uni, names, &slots_of(&[m], 2, 0, 0), 2, false)?;
             let meta = WebSocketSubMapper::map::<E, I, K>(&subs);
             let toks = parse_requests(route.fam, &meta.ws_subscriptions)?;
             match toks.as_slice() {
@@ -900,7 +1053,7 @@ where
     Tr<E, I, K>: ExchangeTransformer<E, I::Key, K>,
     Subscription<E, I, K>: Identifier<E::Channel> + Identifier<E::Market>,
 {
-    let subs = make_subs::<E, I, K>(route, kind, uni, names, &slots_of(markets, off, dup.0, dup.1), off)?;
+    let subs = make_subs::<E, I, K>(route, kind, uni, names, &slots_of(markets, off, dup.0, dup.1), off, true)?;
     let meta = WebSocketSubMapper::map::<E, I, K>(&subs);
     let requests: Vec<String> = meta.ws_subscriptions.iter().map(|m| m.to_string()).collect();
     let mut map_ids: Vec<String> = meta.instrument_map.0.keys().map(|k| k.0.to_string()).collect();
@@ -942,7 +1095,7 @@ where
     let transformer = <Tr<E, I, K> as ExchangeTransformer<E, I::Key, K>>::init(map, &snapshots, tx)
         .await
         .map_err(|e| format!("transformer init failed: {e}"))?;
-    Ok(Session { transformer, chan, seq: [SNAPSHOT_SEQ; NMARKETS], requests, map_ids, request_mismatch })
+    Ok(Session { transformer, chan, seq: [SNAPSHOT_SEQ; NMARKETS], requests, map_ids, request_mismatch, keymap: I::keymap() })
 }
 
 fn unid_prefix() -> String {
@@ -952,7 +1105,7 @@ fn unid_prefix() -> String {
 }
 
 /// parse with the real `WebSocketParser`, transform with the real transformer, project
-fn feed<T, Key, Ev>(route: &Route, t: &mut T, text: &str, out: &mut Vec<Value>)
+fn feed<T, Key, Ev>(route: &Route, keymap: Option<&HashMap<i64, i64>>, t: &mut T, text: &str, out: &mut Vec<Value>)
 where
     T: Transformer<Output = MarketEvent<Key, Ev>, Error = DataError>,
     Key: KeyNum,
@@ -976,14 +1129,14 @@ where
             return;
         }
     };
-    out.extend(results.into_iter().map(|r| project(route, r)));
+    out.extend(results.into_iter().map(|r| project(route, keymap, r)));
 }
 
 /// The buffered path of `MarketStream::init`: frames received while the subscriptions were being
 /// validated are replayed through the new transformer by the public `process_buffered_events`.
 /// Ping / pong frames and a text frame no connector message type parses are skipped by design; the
 /// data messages must come out exactly as on the live path.
-fn feed_buffered<T, Key, Ev>(route: &Route, t: &mut T, texts: &[String], out: &mut Vec<Value>)
+fn feed_buffered<T, Key, Ev>(route: &Route, keymap: Option<&HashMap<i64, i64>>, t: &mut T, texts: &[String], out: &mut Vec<Value>)
 where
     T: Transformer<Output = MarketEvent<Key, Ev>, Error = DataError>,
     Key: KeyNum,
@@ -994,13 +1147,13 @@ where
     frames.push(WsMessage::text(json!({"c13": "a frame that is not a market-data message"}).to_string()));
     frames.push(WsMessage::Pong(vec![4u8].into()));
     match catch(move || process_buffered_events::<WebSocketParser, T>(t, frames).into_iter().collect::<Vec<_>>()) {
-        Ok(results) => out.extend(results.into_iter().map(|r| project(route, r))),
+        Ok(results) => out.extend(results.into_iter().map(|r| project(route, keymap, r))),
         Err(p) => out.push(err(format!("panic in process_buffered_events: {p}"))),
     }
 }
 
 /// one output of the transformer -> spec `out` record
-fn project<Key, Ev>(route: &Route, r: Result<MarketEvent<Key, Ev>, DataError>) -> Value
+fn project<Key, Ev>(route: &Route, keymap: Option<&HashMap<i64, i64>>, r: Result<MarketEvent<Key, Ev>, DataError>) -> Value
 where
     Key: KeyNum,
     Ev: Proj,
@@ -1020,7 +1173,12 @@ where
                         } else {
                             json!(0)
                         };
-                        rec("ev", json!(ev.instrument.num()), ev.exchange.as_str(), p, a, s, t)
+                        let key = match keymap {
+                            None => ev.instrument.num(),
+                            // a position that is not in the collection at all is no spec key either
+                            Some(map) => map.get(&ev.instrument.num()).copied().unwrap_or(1000 + ev.instrument.num()),
+                        };
+                        rec("ev", json!(key), ev.exchange.as_str(), p, a, s, t)
                     }
                 }
             },
@@ -1153,9 +1311,9 @@ where
                         let text = payload(route, mk, &g, l.sess.seq[m - 1], chan, n_msg);
                         let before = out.len();
                         if x.2 {
-                            feed_buffered(route, &mut l.sess.transformer, std::slice::from_ref(&text), &mut out);
+                            feed_buffered(route, l.sess.keymap.as_ref(), &mut l.sess.transformer, std::slice::from_ref(&text), &mut out);
                         } else {
-                            feed(route, &mut l.sess.transformer, &text, &mut out);
+                            feed(route, l.sess.keymap.as_ref(), &mut l.sess.transformer, &text, &mut out);
                         }
                         if route.sk == SK::L2 && out[before..].iter().any(|o| o["k"] == "ev") {
                             l.sess.seq[m - 1] += 1;
@@ -1183,6 +1341,12 @@ where
                 // "ask_only" mean "buy" / "sell" (`map`), or the scenario - a duplicate - is skipped
                 let one_sided = |e: &Value| e["fs"].as_array().is_some_and(|x| x.iter().any(|f| f["s"] == "bid_only" || f["s"] == "ask_only"));
                 if route.sk != SK::L1 && ctx.onesided == "skip" && scn["evs"].as_array().expect("evs").iter().any(one_sided) {
+                    continue;
+                }
+                // (the exhaustive set holds every message live and buffered: flavours differ only in how
+                //  the subscriptions are made, so the buffered half runs on the first flavour only; the
+                //  other sets mix live and buffered messages on every flavour)
+                if I::NAME != "keyed" && ctx.onesided == "skip" && scn["evs"].as_array().expect("evs").iter().any(|e| e["buf"] == true) {
                     continue;
                 }
                 reset(ctx);
@@ -1249,6 +1413,7 @@ macro_rules! route {
         let names = run_flavour::<$E, Keyed<u32, MarketDataInstrument>, _>($K, $r, &none, $ctx, $bfx).await;
         run_flavour::<$E, MarketInstrumentData<u32>, _>($K, $r, &names, $ctx, $bfx).await;
         run_flavour::<$E, Keyed<InstrumentIndex, MarketDataInstrument>, _>($K, $r, &names, $ctx, $bfx).await;
+        run_flavour::<$E, MarketInstrumentData<InstrumentIndex>, _>($K, $r, &names, $ctx, $bfx).await;
     }};
 }
 
@@ -1319,7 +1484,7 @@ async fn main() {
         out: Out::create(args.req("out")),
         details: args.get("details").map(Out::create),
         work,
-        flavours: args.str("flavours", "keyed,named,indexed").split(',').map(|x| x.to_string()).collect(),
+        flavours: args.str("flavours", "keyed,named,indexed,generated").split(',').map(|x| x.to_string()).collect(),
         onesided: args.str("onesided", "map"),
         stats: serde_json::Map::new(),
     };
